@@ -729,6 +729,16 @@ func c17Next(tr *c17TaskRes, s *tokState) (more bool) {
 			return fail(fmt.Sprintf("iskey:got-%v", tok.IsKey), "IsKey %v, expected %v for %q", tok.IsKey, e.isKey, clip(e.raw, 40))
 		}
 	}
+	// RawValue predicates classify the token by its first byte
+	if e.delim == 0 {
+		v := tok.Value
+		wantStr, wantNum := e.isStr, e.isNum
+		wantTrue, wantFalse := e.isBool && e.boolVal, e.isBool && !e.boolVal
+		wantNull := e.class == json.Null
+		if v.String() != wantStr || v.Number() != wantNum || v.True() != wantTrue || v.False() != wantFalse || v.Null() != wantNull {
+			return fail("rawvalue-predicates", "RawValue predicates (String=%v Number=%v True=%v False=%v Null=%v) do not match token %q", v.String(), v.Number(), v.True(), v.False(), v.Null(), clip(e.raw, 40))
+		}
+	}
 	switch {
 	case e.isStr:
 		if got := tok.String(); string(got) != e.str {
